@@ -1,4 +1,5 @@
 import SdxProofs.CounterLemmas
+import SdxModel.Synth
 set_option linter.unusedSectionVars false
 /-!
 # C02 — Suppression decision: hard floor, normal threshold, keyed by salt + entity set
@@ -274,3 +275,23 @@ theorem C02_unique_counter_set_semantics (rows : List (List UInt64)) (h : ∀ r 
   have h2 : xorSet (entitySet (idColumn rows 0)) = ((idColumn rows 0).filter (· ≠ 0)).foldl (· ^^^ ·) 0 := by
     unfold entitySet; rw [← xorAll_eq_xorSet hdistinct]; rfl
   rw [h1, h2]
+
+/-! ## The cap chosen by `Synthesizer.__init__` -/
+section
+variable {α : Type} [Field α] [LinearOrder α] [IsStrictOrderedRing α] [FloorRing α]
+
+/-- T02.f  The counters stop tracking only at or above every threshold they are asked about and at or above
+`range_low_threshold + ⌊(gap+4)·sd⌋` (for `gap, sd ≥ 0`), which is what C02's saturation clause and C01's
+floor (`C02_saturating_counter_floor`) need. -/
+theorem C02_cap_bounds (lt sing range : Int) (gap sd : α) (hg : 0 ≤ gap) (hs : 0 ≤ sd) :
+    lt ≤ maxLowCount lt sing range gap sd ∧ sing ≤ maxLowCount lt sing range gap sd ∧
+      range + ⌊(gap + 4) * sd⌋ ≤ maxLowCount lt sing range gap sd := by
+  have hnn : (0 : α) ≤ (gap + 4) * sd := by positivity
+  have hf : (0 : Int) ≤ ⌊(gap + 4) * sd⌋ := Int.floor_nonneg.mpr hnn
+  have ht : (ScalarOps.trunc ((gap + ofInt 4) * sd) : Int) = ⌊(gap + 4) * sd⌋ := by
+    rw [strunc_eq]; simp [hnn]
+  unfold maxLowCount
+  rw [ht]
+  refine ⟨?_, ?_, ?_⟩ <;> omega
+
+end
